@@ -284,7 +284,7 @@ func (c BytesCase) bytes() []byte {
 var specBytes = pbt.Register(pbt.Spec[BytesCase]{
 	Prop: "C15", Name: "hash-random-strings",
 	Rule: "byte strings of length 0..4096 (short random ones, all lengths 0..40 so that every block/tail combination of the 4- and 8-byte murmur loops occurs, lengths around 255/256/4096, bytes >= 0x80 frequent; nil and empty) through every hash of util/hash and the byte-string murmur hashes with a random seed / prefix length, each against the reference; non-trivial = length >= 3; distinct by input bytes, seed, prefix",
-	Quick: 100000, Thorough: 1000000,
+	Quick: 300000, Thorough: 1000000,
 	Draw: func(t *rapid.T) BytesCase {
 		c := BytesCase{Seed: rapid.Uint32().Draw(t, "seed")}
 		switch rapid.IntRange(0, 9).Draw(t, "kind") {
@@ -370,7 +370,7 @@ type IntCase struct {
 var specMurmurInt = pbt.Register(pbt.Spec[IntCase]{
 	Prop: "C15", Name: "murmur-integers",
 	Rule: "64-bit integers (uniform, boundary catalogue, single bits, upper-half-only) through MurmurHashLong and their low 32 bits through MurmurHash, against hashLong written in Java int arithmetic; non-trivial = value >= 2^8; distinct by value",
-	Quick: 100000, Thorough: 2000000,
+	Quick: 300000, Thorough: 2000000,
 	Draw: func(t *rapid.T) IntCase {
 		switch rapid.IntRange(0, 3).Draw(t, "kind") {
 		case 0:
